@@ -887,8 +887,11 @@ impl<'de> de::Deserializer<'de> for &mut Deserializer<'de> {
             TypeInner::Principal => self.deserialize_principal(visitor),
             // construct types
             TypeInner::Opt(_) => self.deserialize_option(visitor),
-            // This is an optimization for blob, mostly likely used by IDLValue, but it won't help the native Vec<u8>
-            TypeInner::Vec(_) if self.expect_type.is_blob(&self.table) => {
+            // This is an optimization for blob, mostly likely used by IDLValue, but it won't help the native Vec<u8>.
+            // It applies only when the wire type is a blob as well; any other vector is coerced element by element.
+            TypeInner::Vec(_)
+                if self.expect_type.is_blob(&self.table) && self.wire_type.is_blob(&self.table) =>
+            {
                 self.deserialize_blob(visitor)
             }
             TypeInner::Vec(_) => self.deserialize_seq(visitor),
@@ -1211,10 +1214,13 @@ impl<'de> de::Deserializer<'de> for &mut Deserializer<'de> {
     fn deserialize_byte_buf<V: Visitor<'de>>(self, visitor: V) -> Result<V::Value> {
         self.unroll_type()?;
         check!(
-            *self.expect_type == TypeInner::Vec(TypeInner::Nat8.into())
-                && *self.wire_type == TypeInner::Vec(TypeInner::Nat8.into()),
+            *self.expect_type == TypeInner::Vec(TypeInner::Nat8.into()),
             "vec nat8"
         );
+        if *self.wire_type != TypeInner::Vec(TypeInner::Nat8.into()) {
+            // not a blob on the wire: coerce it like any other vector
+            return self.deserialize_seq(visitor);
+        }
         let len = self.read_len()?;
         self.add_cost(len.saturating_add(1))?;
         let bytes = self.borrow_bytes(len)?.to_owned();
